@@ -156,6 +156,12 @@ func (n *DestinationAckerNode) worker(
 					handleError(msg, cerrors.Errorf("error while fetching acks: %w", err))
 					return
 				}
+				if len(acks) == 0 {
+					// an ack response without any acks would make the index below
+					// panic and take the whole process down
+					handleError(msg, cerrors.New("destination returned an empty ack response"))
+					return
+				}
 			}
 
 			ack := acks[0]
